@@ -919,29 +919,34 @@ class C01:
         for fname, test in (("to_aeof", "isinstance"), ("to_soundevent", "collection_type")):
             s = ctx.summ.of_func(AOEF_PKG, fname)
             site = f"{file}:{s.node.lineno} {fname}"
-            loops = [l for l in s.loops.values() if l.kind == "for" and l.iter == ("global", f"{AOEF_PKG}:ADAPTERS", "assign")]
-            if len(loops) != 1:
-                ctx.undec("R01.6", site, "expected exactly one `for ... in ADAPTERS` loop")
+            from .aoef import adapter_selections
+            sels = adapter_selections(s)
+            if len(sels) != 1:
+                ctx.undec("R01.6", site, f"expected exactly one adapter construction selected from ADAPTERS, found {len(sels)}")
                 continue
-            L = loops[0]
-            e = ("elem", L.id)
-            ctor = [c for c in s.calls if c.term[1] == ("sub", e, ("const", 2)) and L.id in c.loops]
-            rets = [r for r in s.returns if L.id in r.loops]
-            if not ctor or not rets:
-                ctx.bad("R01.6", file, fname, "adapter_cls(...) inside the ADAPTERS loop",
-                        "the adapter is not constructed inside the dispatch loop: lookup tables would be shared "
-                        "between calls", s.node.lineno)
-                continue
+            sel = sels[0]
+            e = sel["elem"]
             cond_ok = False
-            for r in rets:
-                txt = show(r.live)
-                if test == "isinstance":
-                    cond_ok |= any(x == ("call", ("builtin", "isinstance"), (("param", s.params[0]), ("sub", e, ("const", 1))), ())
-                                   for x in walk(r.live))
-                else:
-                    cond_ok |= any(x[0] == "cmp" and x[1] == "eq" and ("sub", e, ("const", 0)) in (x[2], x[3])
-                                   and any(y[0] == "attr" and y[2] == "collection_type" for y in walk(x))
-                                   for x in walk(r.live))
+            if sel["form"] == "table":
+                # a lookup table keyed by the type name (names are pairwise distinct, so first match == the match)
+                cond_ok = test == "collection_type" and sel["keycol"] == 0 and \
+                    any(y[0] == "attr" and y[2] == "collection_type" for y in walk(sel["key"]))
+                rets = s.returns
+            else:
+                rets = [r for r in s.returns if sel["loop"] in r.loops]
+                if not rets:
+                    ctx.bad("R01.6", file, fname, "adapter_cls(...) inside the ADAPTERS loop",
+                            "the adapter is not constructed inside the dispatch loop: lookup tables would be shared "
+                            "between calls", s.node.lineno)
+                    continue
+                for r in rets:
+                    if test == "isinstance":
+                        cond_ok |= any(x == ("call", ("builtin", "isinstance"), (("param", s.params[0]), ("sub", e, ("const", 1))), ())
+                                       for x in conjuncts_(r.live))
+                    else:
+                        cond_ok |= any(x[0] == "cmp" and x[1] == "eq" and ("sub", e, ("const", 0)) in (x[2], x[3])
+                                       and any(y[0] == "attr" and y[2] == "collection_type" for y in walk(x))
+                                       for x in conjuncts_(r.live))
             if cond_ok:
                 ctx.ok("R01.6", site, f"fresh adapter per call, first `{test}` match in table order")
             else:
